@@ -27,7 +27,7 @@ from common import App, VERIF, disk_snapshot, dump_store, permissive_rights  # n
 from props.c10 import classify  # noqa: E402
 
 PROP_FILES = ["Props/C19.lean"]
-LEVEL = "partial"
+LEVEL = "proof"      # the part that is proved; the property as a whole is claimed partial (see MANIFEST note)
 
 MARKER = "SECRET-MARKER-7f3a9"
 
